@@ -717,9 +717,14 @@ def str_strip(e: Engine, st: State, s, attr: str, chars: Optional[str]) -> SV:
         done.add(key)
         st.assume(And(0 <= lo, lo <= hi, hi <= n))
         st.assume(Implies(hi > 0, Not(char_in(at(hi - 1), chars))))
-        st.assume(z3.ForAll([j], Implies(And(j >= hi, j < n), char_in(at(j), chars)), patterns=[at(j)]))
+        def fa(body):
+            try:
+                return z3.ForAll([j], body, patterns=[at(j)])
+            except z3.Z3Exception:      # the string term contains boolean structure: no explicit pattern
+                return z3.ForAll([j], body)
+        st.assume(fa(Implies(And(j >= hi, j < n), char_in(at(j), chars))))
         st.assume(Implies(lo < hi, Not(char_in(at(lo), chars))))
-        st.assume(z3.ForAll([j], Implies(And(j >= 0, j < lo), char_in(at(j), chars)), patterns=[at(j)]))
+        st.assume(fa(Implies(And(j >= 0, j < lo), char_in(at(j), chars))))
     if attr == "strip":
         r = z3.SubString(s, lo, hi - lo)
     elif attr == "rstrip":
